@@ -72,3 +72,6 @@ def register(db):
                           note="pow2(n) >= 1 for n >= 0, by induction; ground instances are used by the engine"))
     db.lemmas.append(dict(name="pow2_mono", builtin="pow2_mono", serves=["C19"],
                           note="0 <= a <= b -> pow2(a) <= pow2(b), by induction on b"))
+    db.prop_meta("C19", not_decided=[
+        "the cron branch of compute_next_execution_time (croniter is not installed here: the branch raises ImportError)",
+    ], assumptions=["timedelta(seconds=int) and datetime arithmetic are exact integer-microsecond arithmetic (CPython)"])
